@@ -416,6 +416,8 @@ class WebVTTWriter(BaseWriter):
                 # ATTENTION: This is where the plain unicode node content is
                 # finally encoded as WebVTT.
                 s += self._encode_illegal_characters(node.content) or "&nbsp;"
+                # the arrow may also come into being where two text nodes meet
+                s = s.replace("-->", "--&gt;")
                 current_layout = node.layout_info
             elif node.type_ == CaptionNode.STYLE:
                 resulting_style = self._calculate_resulting_style(
